@@ -19,6 +19,8 @@ def one_char(mk, base):
 def register(db):
     collab.declare(db)
     P = ["C07"]
+    register_rename_by_preference(db)
+    register_safe_name(db)
     db.add(Contract(
         f"{T}:classify", params={"character": one_char},
         ensures=[("upper", "(result == 1) == ('A' <= character and character <= 'Z')"),
@@ -48,4 +50,69 @@ def register(db):
         loops=[Loop(invariants=["index >= 1"], header="text.alnum(f'{name}_{index}') in reserved")],
         properties=P,
         note="partial correctness: termination of the index search relies on the reserved set being finite (not proved)",
+    ))
+
+
+def register_rename_by_preference(db):
+    """ClassUtils.rename_attribute_by_preference: of two fields with the same slug exactly one is renamed - when both
+    come from the same kind of node and one has a namespace, that one (preferably the second) gets its cleaned namespace
+    as a prefix; otherwise the attribute field (else the first) gets its node kind as a suffix.  The other field keeps
+    its name."""
+    from pyvc.contracts import Contract
+    CU = "xsdata.codegen.utils:ClassUtils"
+    db.inline.add("xsdata.codegen.models:Attr.is_attribute")
+    db.add(Contract("xsdata.utils.namespaces:clean_uri", variant="call-view", trusted=True, call_default=True, params={}, returns="str",
+                    raises={}, call_ensures=["result == uf('clean_uri', 'str', namespace)"],
+                    note="call-site view: the cleaned namespace is a function of the namespace"))
+
+    def cls_utils(mk, base):
+        from pyvc.values import ClassRef
+        return ClassRef("xsdata.codegen.utils", "ClassUtils")
+
+    def attr(mk, base):
+        return mk.obj("xsdata.codegen.models:Attr", {"name": "str", "tag": "str", "namespace": "str|None"})
+
+    HAS = "({x}.namespace is not None and len({x}.namespace) > 0)"
+    SAME_KIND_NS = f"(a.tag == b.tag and ({HAS.format(x='a')} or {HAS.format(x='b')}))"
+    IS_ATTR_B = "(b.tag == 'Attribute' or b.tag == 'AnyAttribute')"
+    db.add(Contract(
+        f"{CU}.rename_attribute_by_preference", params={"cls": cls_utils, "a": attr, "b": attr},
+        requires=["a is not b"],
+        ensures=[("exactly-one-field-is-renamed-the-other-keeps-its-name",
+                  "(a.name == old(a.name) and len(b.name) > len(old(b.name))) or (b.name == old(b.name) and len(a.name) > len(old(a.name)))"),
+                 ("namespace-prefix-goes-to-the-field-that-has-one-preferably-the-second",
+                  f"implies({SAME_KIND_NS}, ite({HAS.format(x='b')}, b.name == uf('clean_uri', 'str', b.namespace) + '_' + old(b.name), "
+                  f"a.name == uf('clean_uri', 'str', a.namespace) + '_' + old(a.name)))"),
+                 ("otherwise-the-attribute-field-else-the-first-gets-its-node-kind-as-suffix",
+                  f"implies(not {SAME_KIND_NS}, ite({IS_ATTR_B}, b.name == old(b.name) + '_' + b.tag, a.name == old(a.name) + '_' + a.tag))")],
+        raises={}, modifies=["a.name", "b.name"], properties=["C07"],
+    ))
+
+
+def register_safe_name(db):
+    """Filters.safe_name: whatever the input name (empty, numeric, punctuation only, a Python keyword ...), what comes
+    out is `name_case` of some name and is *not* a reserved word - by induction over the recursive calls (each recursive
+    call is checked against this very contract; termination is not proved)."""
+    from pyvc import builtins_calls as bc
+    from pyvc.contracts import Contract, assume_method, pure_result
+    from pyvc.values import BuiltinRef
+
+    def is_reserved(ex, st, args, kwargs):
+        yield st, pure_result(ex, st, "is_reserved", "bool", [args[0]])
+
+    bc.FUNCS["xsdata.text.is_reserved"] = is_reserved
+    db.const_overrides[("xsdata.utils.text", "is_reserved")] = BuiltinRef("xsdata.text.is_reserved")
+    assume_method(db, "NameCase", "__call__", returns="str", pure=True)
+    F = "xsdata.formats.dataclass.filters:Filters"
+
+    def filters(mk, base):
+        return mk.obj(F, {"relative_imports": "bool"})
+
+    db.add(Contract(
+        f"{F}.safe_name", params={"self": filters, "name": "str", "prefix": "str", "name_case": "opaque:NameCase"},
+        kwargs={"known": {}, "open": False},
+        ensures=[("never-a-reserved-word", "not uf('is_reserved', 'bool', result)")],
+        raises={}, returns="str", properties=["C07"], call_default=True,
+        note="assumed: text.is_reserved (membership in the stop-word set) is a function of the string; name_case is an "
+             "arbitrary function str -> str",
     ))
